@@ -330,3 +330,51 @@ func TestVerifC16(t *testing.T) {
 		}
 	}
 }
+
+// TestVerifC16Stall: a backend Close that does not return must not stall other requests of the
+// same connection (fid table lock not held across Close).  "Stalled" is inferred by timeout only
+// in the direction "it should have been answered", confirmed 3 x 1.1 s.
+func TestVerifC16Stall(t *testing.T) {
+	out := vhOpen(t)
+	defer out.Close()
+	answered := false
+	for try := 0; try < 3 && !answered; try++ {
+		fs := vhgNewFS()
+		vh16Seed(fs, 1)
+		env, err := vhgStart(fs, 1)
+		if err != nil {
+			t.Fatal(err)
+		}
+		root, err := env.clients[0].Attach("")
+		if err != nil {
+			t.Fatal(err)
+		}
+		_, f1, err := root.Walk([]string{"c0", "a"})
+		if err != nil {
+			t.Fatal(err)
+		}
+		_, f2, err := root.Walk([]string{"c0", "sub"})
+		if err != nil {
+			t.Fatal(err)
+		}
+		g := fs.arm("Close", "/c0/a", 0)
+		d1, d2 := make(chan struct{}), make(chan struct{})
+		go func() { f1.Close(); close(d1) }()
+		select {
+		case <-g.reached:
+		case <-time.After(10 * time.Second):
+			t.Fatal("Close not reached")
+		}
+		go func() { f2.GetAttr(AttrMaskAll); close(d2) }()
+		select {
+		case <-d2:
+			answered = true
+		case <-time.After(1100 * time.Millisecond):
+		}
+		close(g.release)
+		<-d1
+		<-d2
+		env.stop(10 * time.Second)
+	}
+	out.Emit(map[string]interface{}{"kind": "stall", "answered": answered, "what": "Tgetattr on another fid of the connection while the backend holds Tclunk's Close"})
+}
